@@ -49,6 +49,51 @@ T={
  ('UnaryArithm','End'):'implies(R.Post, pacOK(result, R.OpPos, 2))',                            # "++" / "--"
  ('TimeClause','End'):'implies(R.Stmt == nil, pacOK(result, R.Time, 4))',                       # "time"
 }
+# Composite nodes: Pos() is the Pos() of the first component in source order, End() the End() of the last one (plus the
+# width of a closing token): "each node lies within its parent", written from the node documentation. x.Pos()/x.End()
+# in a postcondition denote the results of those pure methods in the same state (see DESIGN I.3, pure calls).
+# posAfter(a,b): a is a known position strictly after b.  Lists of clauses: several ensures.
+D={
+ ('ArrayElem','Pos'):['[first] ite(R.Index != nil, result == R.Index.Pos(), result == R.Value.Pos())'],
+ ('ArrayElem','End'):['[last] ite(R.Value != nil, result == R.Value.End(), pacOK(result, R.Index.End(), 2))'],        # "]="
+ ('Assign','Pos'):['[first] ite(R.Name == nil, result == R.Value.Pos(), result == R.Name.Pos())'],
+ ('Assign','End'):['[last-value] implies(R.Value != nil, result == R.Value.End())',
+                   '[last-array] implies(R.Value == nil && R.Array != nil, result == R.Array.End())',
+                   '[last-index] implies(R.Value == nil && R.Array == nil && R.Index != nil, pacOK(result, R.Index.End(), ite(R.Naked, 1, 2)))',   # "]" or "]="
+                   '[last-name] implies(R.Value == nil && R.Array == nil && R.Index == nil, ite(R.Naked, result == R.Name.End(), pacOK(result, R.Name.End(), 1)))'],  # "="
+ ('BinaryArithm','Pos'):['[first] result == R.X.Pos()'], ('BinaryArithm','End'):['[last] result == R.Y.End()'],
+ ('BinaryCmd','Pos'):['[first] result == R.X.Pos()'],    ('BinaryCmd','End'):['[last] result == R.Y.End()'],
+ ('BinaryTest','Pos'):['[first] result == R.X.Pos()'],   ('BinaryTest','End'):['[last] result == R.Y.End()'],
+ ('BraceExp','Pos'):['[first] pacOK(result, R.Elems[0].Pos(), -1)'],                                            # "{"
+ ('BraceExp','End'):['[last] pacOK(result, wordLastEnd(R.Elems), 1)'],                                          # "}"
+ ('CallExpr','Pos'):['[first] ite(len(R.Assigns) > 0, result == R.Assigns[0].Pos(), result == R.Args[0].Pos())'],
+ ('CallExpr','End'):['[last] ite(len(R.Args) == 0, result == R.Assigns[len(R.Assigns)-1].End(), result == R.Args[len(R.Args)-1].End())'],
+ ('CaseItem','Pos'):['[first] result == R.Patterns[0].Pos()'],
+ ('CaseItem','End'):['[last] implies(!validPos(R.OpPos), result == stmtsEnd(R.Stmts, R.Last))',
+                     '[closing-operator] implies(validPos(R.OpPos) && (R.Op == Break || R.Op == Fallthrough || R.Op == Resume || R.Op == ResumeKorn), pacOK(result, R.OpPos, caseOpWidth(R.Op)))'],  # ;; ;& ;;& ;|
+ ('CoprocClause','End'):['[last] result == R.Stmt.End()'],
+ ('DeclClause','Pos'):['[first] result == R.Variant.Pos()'],
+ ('DeclClause','End'):['[last] ite(len(R.Args) > 0, result == R.Args[len(R.Args)-1].End(), result == R.Variant.End())'],
+ ('ExtGlob','End'):['[last] pacOK(result, R.Pattern.End(), 1)'],                                                # ")"
+ ('File','Pos'):['[first] result == stmtsPos(R.Stmts, R.Last)'], ('File','End'):['[last] result == stmtsEnd(R.Stmts, R.Last)'],
+ ('FlagsArithm','Pos'):['[first] pacOK(result, R.Flags.Pos(), -1)'],                                            # "("
+ ('FlagsArithm','End'):['[last] ite(R.X != nil, result == R.X.End(), pacOK(result, R.Flags.End(), 1))'],        # ")"
+ ('FuncDecl','End'):['[last] result == R.Body.End()'],
+ ('LetClause','End'):['[last] result == R.Exprs[len(R.Exprs)-1].End()'],
+ ('Redirect','End'):['[last] ite(R.Hdoc != nil, result == R.Hdoc.End(), result == R.Word.End())'],
+ ('Stmt','End'):['[terminator] implies(validPos(R.Semicolon) && !R.Coprocess && !R.Disown, pacOK(result, R.Semicolon, 1))',   # ";" or "&"
+                 '[covers-command] implies(!validPos(R.Semicolon) && R.Cmd != nil, !posAfter(R.Cmd.End(), result))',
+                 '[covers-redirects] implies(!validPos(R.Semicolon) && len(R.Redirs) > 0, !posAfter(R.Redirs[len(R.Redirs)-1].End(), result))',
+                 '[command-end] implies(!validPos(R.Semicolon) && R.Cmd != nil && len(R.Redirs) == 0, result == R.Cmd.End())',
+                 '[one-of-them] implies(!validPos(R.Semicolon) && R.Cmd != nil && len(R.Redirs) > 0, result == R.Cmd.End() || result == R.Redirs[len(R.Redirs)-1].End())',
+                 '[negation-only] implies(!validPos(R.Semicolon) && R.Cmd == nil && len(R.Redirs) == 0, ite(R.Negated, pacOK(result, R.Position, 1), result == R.Position))'],  # "!"
+ ('TestDecl','End'):['[last] result == R.Body.End()'],
+ ('UnaryTest','End'):['[last] result == R.X.End()'],
+ ('Word','Pos'):['[first] result == R.Parts[0].Pos()'], ('Word','End'):['[last] result == R.Parts[len(R.Parts)-1].End()'],
+ ('WordIter','Pos'):['[first] result == R.Name.Pos()'],
+ ('WordIter','End'):['[last-item] implies(len(R.Items) > 0, result == wordLastEnd(R.Items))',
+                     '[covers-name] implies(len(R.Items) == 0, !posAfter(R.Name.End(), result))'],
+}
 out=[]
 for (ty,me),post in sorted(T.items()):
     if post is None: continue
@@ -56,13 +101,28 @@ for (ty,me),post in sorted(T.items()):
         print('no such method',ty,me,file=sys.stderr); continue
     r=recv[(ty,me)]
     out.append(f'//@ func {ty}.{me}\n//@ mode bv\n//@ props C09\n//@ ensures [token] {post.replace("R.",r+".")}\n//@ pure\n')
-# every other Pos()/End() method, and the helpers they share, get a frame-only contract: they write nothing.
-done={k for k,v in T.items() if v is not None}
+for (ty,me),posts in sorted(D.items()):
+    if (ty,me) not in recv:
+        print('no such method',ty,me,file=sys.stderr); continue
+    r=recv[(ty,me)]
+    ens=''.join(f'//@ ensures {c.replace("R.",r+".")}\n' for c in posts)
+    out.append(f'//@ func {ty}.{me}\n//@ mode bv\n//@ props C09\n//@ nosafety\n{ens}//@ pure\n')
+# every other Pos()/End() method gets a frame-only contract: it writes nothing.
+done={k for k,v in T.items() if v is not None}|set(D)
 for (ty,me),r in sorted(recv.items()):
     if (ty,me) in done: continue
     out.append(f'//@ func {ty}.{me}\n//@ mode bv\n//@ props C09\n//@ nosafety\n//@ pure\n')
-for h in ('stmtsPos','stmtsEnd','wordLastEnd'):
-    out.append(f'//@ func {h}\n//@ mode bv\n//@ props C09\n//@ nosafety\n//@ pure\n')
+H={'stmtsPos':['[none] implies(len(stmts) == 0 && len(last) == 0, !validPos(result))',
+               '[first-stmt-or-its-comment] implies(len(stmts) > 0, result == stmts[0].Pos() || (len(stmts[0].Comments) > 0 && result == stmts[0].Comments[0].Hash))',
+               '[not-after-first-stmt] implies(len(stmts) > 0, !posAfter(result, stmts[0].Pos()))',
+               '[first-comment] implies(len(stmts) == 0 && len(last) > 0, result == last[0].Hash)'],
+   'stmtsEnd':['[none] implies(len(stmts) == 0 && len(last) == 0, !validPos(result))',
+               '[last-comment] implies(len(last) > 0, pacOK(result, last[len(last)-1].Hash, 1 + len(last[len(last)-1].Text)))',
+               '[covers-last-stmt] implies(len(last) == 0 && len(stmts) > 0, !posAfter(stmts[len(stmts)-1].End(), result))'],
+   'wordLastEnd':['[none] implies(len(ws) == 0, !validPos(result))', '[last] implies(len(ws) > 0, result == ws[len(ws)-1].End())']}
+for h,posts in H.items():
+    ens=''.join(f'//@ ensures {c}\n' for c in posts)
+    out.append(f'//@ func {h}\n//@ mode bv\n//@ props C09\n//@ nosafety\n{ens}//@ pure\n')
 # interface methods: pure because every implementation above is verified pure (checked by the iface-purity obligation)
 for iface in ('Node','Command','WordPart','ArithmExpr','TestExpr','Loop'):
     for me in ('Pos','End'):
